@@ -25,6 +25,7 @@ func checkC09(c *Ctx, r *Report) {
 	checkRSWord(c, r)
 	checkRowScan(c, r)
 	checkHintForwarding(c, r)
+	checkCode128RoundTrip(c, r) // the Code 128 reader's state machine returns what the writer wrote (no silent trimming)
 	r.Rule("S-RSACCEPT", "ReedSolomonDecoder.Decode, folded from source with everything it calls over every one of the 16^3 words of length 3 with 2 check symbols - in GF(16) with generator base 1 (the Data Matrix / Aztec convention) and base 0 (the QR convention) - either reports an error or leaves a codeword at most one symbol away from the word it was given: a sampled grid that is not within the correction radius of a codeword is rejected, never delivered", 2)
 	accDoms := []rsAcceptDom{{newRefGF(0x13, 16, 1), "GF(16)/0x13 base 1", 3, 2}, {newRefGF(0x13, 16, 0), "GF(16)/0x13 base 0", 3, 2}}
 	if c.Tier == "thorough" {
@@ -634,9 +635,16 @@ func checkMirrorRetry(c *Ctx, r *Report) {
 							if identObj(p, rhs) == outer {
 								tri = true
 							}
-							if be, isB := rhs.(*ast.BinaryExpr); isB && be.Op == token.ADD && identObj(p, be.X) == outer {
-								if v, isK := constInt(p, be.Y); isK && v >= 0 {
-									tri = v <= 1
+							if be, isB := rhs.(*ast.BinaryExpr); isB && be.Op == token.ADD {
+								// outer + k or k + outer
+								x, y := be.X, be.Y
+								if identObj(p, y) == outer {
+									x, y = y, x
+								}
+								if identObj(p, x) == outer {
+									if v, isK := constInt(p, y); isK && v >= 0 {
+										tri = v <= 1
+									}
 								}
 							}
 						}
@@ -936,17 +944,27 @@ func checkOrientation(c *Ctx, r *Report) {
 		// syntactic: an early exit testing the TRY_HARDER hint precedes
 		gi, _ := guardsOf(fd.Body, enclosingStmt(fd.Body, rot.Call))
 		th, nfound := false, false
+		// the try-harder flag: the presence result of the hints[TRY_HARDER] lookup
+		var thObj types.Object
+		ast.Inspect(fd.Body, func(n ast.Node) bool {
+			if as, isA := n.(*ast.AssignStmt); isA && len(as.Lhs) == 2 && len(as.Rhs) == 1 {
+				if ix, isIx := as.Rhs[0].(*ast.IndexExpr); isIx && strings.HasSuffix(exprString(ix.Index), "DecodeHintType_TRY_HARDER") {
+					thObj = identObj(p, as.Lhs[1])
+				}
+			}
+			return true
+		})
 		for _, g := range gi.EarlyExits {
 			txt := exprString(g.Cond)
-			if strings.Contains(txt, "tryHarder") && strings.Contains(txt, "IsRotateSupported") {
+			if thObj != nil && usesIdent(p, g.Cond, thObj) && strings.Contains(txt, "IsRotateSupported") {
 				if u, isU := ast.Unparen(g.Cond).(*ast.UnaryExpr); isU && u.Op == token.NOT {
 					if be, isB := ast.Unparen(u.X).(*ast.BinaryExpr); isB && be.Op == token.LAND {
 						th = true
 					}
 				}
 			}
-			if g.Init != nil && strings.Contains(exprString(g.Cond), "!ok") {
-				if as, isA := g.Init.(*ast.AssignStmt); isA && len(as.Rhs) == 1 {
+			if u, isU := ast.Unparen(g.Cond).(*ast.UnaryExpr); g.Init != nil && isU && u.Op == token.NOT {
+				if as, isA := g.Init.(*ast.AssignStmt); isA && len(as.Rhs) == 1 && len(as.Lhs) == 2 && identObj(p, u.X) != nil && identObj(p, u.X) == identObj(p, as.Lhs[1]) {
 					if ta, isT := as.Rhs[0].(*ast.TypeAssertExpr); isT && strings.HasSuffix(exprString(ta.Type), "NotFoundException") {
 						nfound = true
 					}
@@ -965,7 +983,7 @@ func checkOrientation(c *Ctx, r *Report) {
 			ast.Inspect(fd.Body, func(n ast.Node) bool {
 				if as, isA := n.(*ast.AssignStmt); isA && len(as.Lhs) == 2 && len(as.Rhs) == 1 {
 					if ix, isIx := as.Rhs[0].(*ast.IndexExpr); isIx && strings.HasSuffix(exprString(ix.Index), "DecodeHintType_TRY_HARDER") {
-						if id, isI := as.Lhs[1].(*ast.Ident); isI && id.Name == "tryHarder" {
+						if o := identObj(p, as.Lhs[1]); o != nil && o == thObj && countAssignsAST(p, fd.Body, o) == 1 {
 							okHint = true
 						}
 					}
